@@ -72,7 +72,10 @@ def run_config(args):
                 out["exc_paths"] += 1
                 env = None
                 if ctx.model is None:
-                    ctx._check()
+                    if ctx._check() == "unsat":      # (lazily added definedness assumptions made the path infeasible)
+                        out["paths"] -= 1
+                        out["exc_paths"] -= 1
+                        continue
                 if ctx.model is not None:
                     env = dict(ctx.model)
                 tb = traceback.format_exception(type(p.exc), p.exc, p.exc.__traceback__)
@@ -165,6 +168,8 @@ def replay_file(path):
     sys.path.insert(0, ROOT)
     from . import oracle as O
     mod = importlib.import_module(rec["module"])
+    if "extra" in rec:
+        return mod.replay_extra(rec)
     env = {k: Fraction(v) for k, v in rec["env"].items()}
     V = O.FloatValues(env, seed=rec.get("seed", 0))
     fn = mod.HARNESSES[rec["cfg"]["h"]]
